@@ -111,3 +111,503 @@ Proof.
         unfold has_ty in Hv; destruct (tag v); cbn in *; auto; discriminate. }
     eapply IH; eauto.
 Qed.
+
+(* ---- typed contexts ---- *)
+Ltac destr_match H :=
+  match type of H with
+  | context [match ?x with _ => _ end] =>
+      lazymatch x with
+      | context [match _ with _ => _ end] => fail
+      | _ => tryif is_var x then destruct x else destruct x eqn:?
+      end
+  end.
+Ltac break_all H := repeat (first [discriminate H | destr_match H]).
+
+Lemma alookup_typed : forall (fty : string -> ty) l f v,
+  fields_typed fty l -> alookup String.eqb f l = Some v -> has_ty v (fty f).
+Proof.
+  induction l as [|[k w] l IH]; intros f v T H; cbn in H; try discriminate.
+  inversion T as [|x y Hx Hy]; subst. cbn in Hx.
+  destruct (String.eqb f k) eqn:E.
+  - apply String.eqb_eq in E. subst. inversion H; subst. assumption.
+  - eapply IH; eauto.
+Qed.
+
+Lemma fld_typed : forall t f v, txn_typed t -> fld t f = Some v -> has_ty v (txn_field_ty f).
+Proof. intros t f v [T _] H. eapply alookup_typed; eauto. Qed.
+
+Lemma alookup_arr_typed : forall (fty : string -> ty) l f arr,
+  arrays_typed fty l -> alookup String.eqb f l = Some arr -> Forall (fun v => has_ty v (fty f)) arr.
+Proof.
+  induction l as [|[k w] l IH]; intros f arr T H; cbn in H; try discriminate.
+  inversion T as [|x y Hx Hy]; subst. cbn in Hx.
+  destruct (String.eqb f k) eqn:E.
+  - apply String.eqb_eq in E. subst. inversion H; subst. assumption.
+  - eapply IH; eauto.
+Qed.
+
+Lemma nth_N_In : forall A (l : list A) i x, nth_N l i = Some x -> In x l.
+Proof. intros A l i x H. unfold nth_N in H. destruct (N.ltb _ _); try discriminate. eapply nth_error_In; eauto. Qed.
+
+Lemma arr_typed : forall t f arr i v, txn_typed t -> alookup String.eqb f (t_arrays t) = Some arr ->
+  nth_N arr i = Some v -> has_ty v (txn_field_ty f).
+Proof.
+  intros t f arr i v [_ T] H N. pose proof (alookup_arr_typed _ _ _ _ T H) as F.
+  rewrite Forall_forall in F. apply F. eapply nth_N_In; eauto.
+Qed.
+
+Lemma cur_txn_typed : forall cx t, ctx_typed cx -> cur_txn cx = Some t -> txn_typed t.
+Proof. intros cx t [G _] H. unfold cur_txn in H. rewrite Forall_forall in G. apply G. eapply nth_error_In; eauto. Qed.
+
+Lemma group_typed : forall cx k t, ctx_typed cx -> nth_N (c_group cx) k = Some t -> txn_typed t.
+Proof. intros cx k t [G _] H. rewrite Forall_forall in G. apply G. eapply nth_N_In; eauto. Qed.
+
+Lemma glob_typed : forall cx f v, ctx_typed cx -> alookup String.eqb f (c_globals cx) = Some v -> has_ty v (global_field_ty f).
+Proof. intros cx f v [_ G] H. eapply alookup_typed; eauto. Qed.
+
+Ltac solve_ty :=
+  first [ apply has_ty_TA
+        | reflexivity
+        | eapply fld_typed; [ first [eapply cur_txn_typed; eassumption | eapply group_typed; eassumption] | eassumption ]
+        | eapply arr_typed; [ first [eapply cur_txn_typed; eassumption | eapply group_typed; eassumption] | eassumption | eassumption ]
+        | eapply glob_typed; eassumption ].
+
+Ltac finish_fix H :=
+  inversion H; subst; cbn [List.length skipn firstn app];
+  split; [reflexivity | split; [ repeat (constructor; [solve_ty|]); constructor | cbn; lia ] ].
+
+
+Lemma fix_local : forall cx o imms pops pushes stk st stk' st',
+  ctx_typed cx -> sig_of o imms = SFix pops pushes ->
+  exec_op cx o imms stk st = OOk stk' st' ->
+  skipn (List.length pushes) stk' = skipn (List.length pops) stk /\
+  stack_has (firstn (List.length pushes) stk') pushes /\
+  (List.length pops <= List.length stk)%nat.
+Proof.
+  intros cx o imms pops pushes stk st stk' st' CT Hs H.
+  destruct o; cbv beta iota delta [sig_of imm_nat] in Hs; try discriminate Hs.
+  all: break_all Hs.
+  all: inversion Hs; subst; clear Hs.
+  all: cbv beta iota zeta delta [exec_op exec_pure oki okb okbool push_field push_afield] in H.
+  all: break_all H.
+  all: finish_fix H.
+Qed.
+
+(* ---- list lemmas for the polymorphic stack manipulators ---- *)
+Section ListRel.
+  Context {A B : Type} (R : A -> B -> Prop).
+
+  Lemma insert_at_F2 : forall n a a' r r' s',
+    Forall2 R r r' -> R a a' -> insert_at n a' r' = Some s' ->
+    exists s, insert_at n a r = Some s /\ Forall2 R s s'.
+  Proof.
+    induction n as [|n IH]; intros a a' r r' s' F Ha H; cbn in *.
+    - inversion H; subst. eexists; split; eauto.
+    - destruct r' as [|h' t']; try discriminate.
+      inversion F as [|h h2 t t2 Hh Ht]; subst.
+      destruct (insert_at n a' t') as [q'|] eqn:E; try discriminate. inversion H; subst.
+      destruct (IH _ _ _ _ _ Ht Ha E) as [q [E1 F1]]. rewrite E1. eexists; split; eauto.
+  Qed.
+
+  Lemma remove_at_F2 : forall n r r' x' s',
+    Forall2 R r r' -> remove_at n r' = Some (x', s') ->
+    exists x s, remove_at n r = Some (x, s) /\ R x x' /\ Forall2 R s s'.
+  Proof.
+    induction n as [|n IH]; intros r r' x' s' F H; cbn in *.
+    - destruct r' as [|h' t']; try discriminate. inversion H; subst.
+      inversion F; subst. eexists _, _; split; eauto.
+    - destruct r' as [|h' t']; try discriminate.
+      inversion F as [|h h2 t t2 Hh Ht]; subst.
+      destruct (remove_at n t') as [[y' q']|] eqn:E; try discriminate. inversion H; subst.
+      destruct (IH _ _ _ _ Ht E) as [y [q [E1 [Ry F1]]]]. rewrite E1. eexists _, _; split; eauto.
+  Qed.
+
+  Lemma list_update_F2 : forall l l' i x x',
+    Forall2 R l l' -> R x x' -> Forall2 R (list_update l i x) (list_update l' i x').
+  Proof.
+    intros l l' i x x' F. revert i. induction F as [|h h' t t' Hh Ht IH]; intros i Hx; cbn.
+    - constructor.
+    - destruct i; constructor; auto.
+  Qed.
+
+  Lemma nth_error_F2 : forall l l' n t, Forall2 R l l' -> nth_error l' n = Some t ->
+    exists v, nth_error l n = Some v /\ R v t.
+  Proof.
+    intros l l' n t F. revert n. induction F as [|h h' q q' Hh Hq IH]; intros n H.
+    - destruct n; discriminate.
+    - destruct n; cbn in *.
+      + inversion H; subst. eauto.
+      + eauto.
+  Qed.
+
+  Lemma skipn_F2 : forall n l l', Forall2 R l l' -> Forall2 R (skipn n l) (skipn n l').
+  Proof.
+    induction n; intros l l' F; cbn; auto. destruct F; auto.
+  Qed.
+
+  Lemma firstn_F2 : forall n l l', Forall2 R l l' -> Forall2 R (firstn n l) (firstn n l').
+  Proof.
+    induction n; intros l l' F; cbn; auto. destruct F; auto.
+  Qed.
+
+  Lemma rev_F2 : forall l l', Forall2 R l l' -> Forall2 R (rev l) (rev l').
+  Proof.
+    intros l l' F. induction F; cbn; auto. apply Forall2_app; auto.
+  Qed.
+
+  Lemma repeat_F2 : forall n a a', R a a' -> Forall2 R (repeat a n) (repeat a' n).
+  Proof. induction n; intros; cbn; auto. Qed.
+End ListRel.
+
+Lemma insert_at_app : forall A n (a : A) r s b, insert_at n a r = Some s -> insert_at n a (r ++ b) = Some (s ++ b).
+Proof.
+  induction n as [|n IH]; intros a r s b H; cbn in *.
+  - inversion H; subst. reflexivity.
+  - destruct r as [|h t]; try discriminate. cbn.
+    destruct (insert_at n a t) eqn:E; try discriminate. inversion H; subst.
+    rewrite (IH _ _ _ b E). reflexivity.
+Qed.
+
+Lemma remove_at_app : forall A n (r : list A) x s b, remove_at n r = Some (x, s) -> remove_at n (r ++ b) = Some (x, s ++ b).
+Proof.
+  induction n as [|n IH]; intros r x s b H; cbn in *.
+  - destruct r; try discriminate. inversion H; subst. reflexivity.
+  - destruct r as [|h t]; try discriminate. cbn.
+    destruct (remove_at n t) as [[y q]|] eqn:E; try discriminate. inversion H; subst.
+    rewrite (IH _ _ _ b E). reflexivity.
+Qed.
+
+Lemma list_update_app : forall A (l : list A) i x b, (i < List.length l)%nat -> list_update (l ++ b) i x = list_update l i x ++ b.
+Proof.
+  induction l as [|h t IH]; intros i x b L; cbn in *; try lia.
+  destruct i; cbn; auto. rewrite IH; auto. lia.
+Qed.
+
+Lemma nth_error_app_l : forall A (l b : list A) n v, nth_error l n = Some v -> nth_error (l ++ b) n = Some v.
+Proof. intros. rewrite nth_error_app1; auto. apply nth_error_Some. congruence. Qed.
+
+Lemma skipn_app_le : forall A n (l b : list A), (n <= List.length l)%nat -> skipn n (l ++ b) = skipn n l ++ b.
+Proof. intros. rewrite skipn_app. replace (n - List.length l)%nat with 0%nat by lia. reflexivity. Qed.
+
+(* ---- the main abstraction lemma ---- *)
+Ltac inv_F2 :=
+  repeat match goal with
+  | H : stack_has _ (_ :: _) |- _ => inversion H; subst; clear H
+  | H : Forall2 has_ty _ (_ :: _) |- _ => inversion H; subst; clear H
+  end.
+
+Lemma exec_op_sound : forall cx o imms strict abs abs' cur below st stk' st',
+  ctx_typed cx ->
+  sig_apply strict (sig_of o imms) abs = Some abs' ->
+  stack_has cur abs ->
+  exec_op cx o imms (cur ++ below) st = OOk stk' st' ->
+  exists cur', stk' = cur' ++ below /\ stack_has cur' abs'.
+Proof.
+  intros cx o imms strict abs abs' cur below st stk' st' CT Hs SH H.
+  destruct (sig_of o imms) eqn:Hsig; cbn [sig_apply] in Hs; try discriminate Hs.
+  - (* SFix *)
+    destruct (take_ops strict pops abs) as [rest|] eqn:T; try discriminate Hs. inversion Hs; subst; clear Hs.
+    destruct (take_ops_split _ _ _ _ T) as [pre [E L]]. subst abs.
+    destruct (stack_has_split _ _ _ SH) as [c1 [c2 [E [S1 S2]]]]. subst cur.
+    destruct (fix_local _ _ _ _ _ _ _ _ _ CT Hsig H) as [K1 [K2 K3]].
+    pose proof (stack_has_length _ _ S1) as L1.
+    rewrite <- app_assoc in K1. rewrite skipn_app_le in K1 by lia.
+    replace (skipn (List.length pops) c1) with (@nil value) in K1
+      by (symmetry; apply skipn_all2; lia). cbn [app] in K1.
+    exists (firstn (List.length pushes) stk' ++ c2). split.
+    + rewrite <- app_assoc. rewrite <- K1. symmetry. apply firstn_skipn.
+    + apply stack_has_app; assumption.
+  - (* SEq *)
+    destruct o; cbv beta iota delta [sig_of imm_nat] in Hsig; break_all Hsig.
+    all: destruct abs as [|a [|b r]]; try discriminate Hs.
+    all: destruct (ty_compat2 strict a b); try discriminate Hs; inversion Hs; subst; clear Hs.
+    all: inv_F2.
+    all: cbv beta iota zeta delta [exec_op exec_pure okbool] in H; cbn [app] in H.
+    all: break_all H; inversion H; subst; eexists (_ :: _); (split; [reflexivity | constructor; [reflexivity | assumption]]).
+  - (* SSetbit *)
+    destruct o; cbv beta iota delta [sig_of imm_nat] in Hsig; break_all Hsig.
+    destruct abs as [|a [|b [|c r]]]; try discriminate Hs.
+    destruct (accepts strict a TU && accepts strict b TU); try discriminate Hs; inversion Hs; subst; clear Hs.
+    inv_F2.
+    cbv beta iota zeta delta [exec_op exec_pure okbool] in H; cbn [app] in H.
+    break_all H; inversion H; subst; eexists (_ :: _); (split; [reflexivity | constructor; [ | assumption]]).
+    all: match goal with Ht : has_ty _ ?t |- has_ty _ ?t => unfold has_ty in *; cbn in *; exact Ht end.
+  - (* SSelect *)
+    destruct o; cbv beta iota delta [sig_of imm_nat] in Hsig; break_all Hsig.
+    destruct abs as [|a [|b [|c r]]]; try discriminate Hs.
+    destruct (accepts strict a TU); try discriminate Hs; inversion Hs; subst; clear Hs.
+    inv_F2.
+    cbv beta iota zeta delta [exec_op exec_pure okbool] in H; cbn [app] in H.
+    break_all H; inversion H; subst; eexists (_ :: _); (split; [reflexivity | constructor; [ | assumption]]).
+    all: auto using has_ty_join_l, has_ty_join_r.
+  - (* SDup *)
+    destruct o; cbv beta iota delta [sig_of imm_nat] in Hsig; break_all Hsig.
+    destruct abs as [|a r]; try discriminate Hs. inversion Hs; subst; clear Hs. inv_F2.
+    cbv beta iota zeta delta [exec_op exec_pure] in H; cbn [app] in H. inversion H; subst.
+    eexists (_ :: _ :: _); split; [reflexivity | repeat (constructor; auto)].
+  - (* SDup2 *)
+    destruct o; cbv beta iota delta [sig_of imm_nat] in Hsig; break_all Hsig.
+    destruct abs as [|a [|b r]]; try discriminate Hs. inversion Hs; subst; clear Hs. inv_F2.
+    cbv beta iota zeta delta [exec_op exec_pure] in H; cbn [app] in H. inversion H; subst.
+    eexists (_ :: _ :: _ :: _ :: _); split; [reflexivity | repeat (constructor; auto)].
+  - (* SSwap *)
+    destruct o; cbv beta iota delta [sig_of imm_nat] in Hsig; break_all Hsig.
+    destruct abs as [|a [|b r]]; try discriminate Hs. inversion Hs; subst; clear Hs. inv_F2.
+    cbv beta iota zeta delta [exec_op exec_pure] in H; cbn [app] in H. inversion H; subst.
+    eexists (_ :: _ :: _); split; [reflexivity | repeat (constructor; auto)].
+  - (* SDig *)
+    destruct o; cbv beta iota delta [sig_of imm_nat] in Hsig; break_all Hsig; inversion Hsig; subst; clear Hsig.
+    destruct (nth_error abs (N.to_nat n0)) as [t|] eqn:E; try discriminate Hs. inversion Hs; subst; clear Hs.
+    destruct (nth_error_F2 _ _ _ _ _ SH E) as [v [Ev Hv]].
+    cbv beta iota zeta delta [exec_op exec_pure arg1 imms_to_args] in H.
+    rewrite (nth_error_app_l _ _ below _ _ Ev) in H.
+    break_all H; inversion H; subst.
+    exists (v :: cur). split; [reflexivity | constructor; auto].
+  - (* SCover *)
+    destruct o; cbv beta iota delta [sig_of imm_nat] in Hsig; break_all Hsig; inversion Hsig; subst; clear Hsig.
+    destruct abs as [|a r]; try discriminate Hs. inv_F2.
+    match goal with Hx : has_ty ?x a, Hl : Forall2 has_ty ?l r |- _ =>
+      destruct (insert_at_F2 has_ty _ _ _ _ _ _ Hl Hx Hs) as [s [Es Fs]] end.
+    cbv beta iota zeta delta [exec_op exec_pure arg1 imms_to_args] in H. cbn [app] in H.
+    rewrite (insert_at_app _ _ _ _ _ below Es) in H.
+    break_all H; inversion H; subst.
+    exists s. split; [reflexivity | assumption].
+  - (* SUncover *)
+    destruct o; cbv beta iota delta [sig_of imm_nat] in Hsig; break_all Hsig; inversion Hsig; subst; clear Hsig.
+    destruct (remove_at (N.to_nat n0) abs) as [[x' s']|] eqn:E; try discriminate Hs. inversion Hs; subst; clear Hs.
+    destruct (remove_at_F2 has_ty _ _ _ _ _ SH E) as [x [s [Es [Rx Fs]]]].
+    cbv beta iota zeta delta [exec_op exec_pure arg1 imms_to_args] in H.
+    rewrite (remove_at_app _ _ _ _ _ below Es) in H.
+    break_all H; inversion H; subst.
+    exists (x :: s). split; [reflexivity | constructor; assumption].
+  - (* SBury *)
+    destruct o; cbv beta iota delta [sig_of imm_nat] in Hsig; break_all Hsig; inversion Hsig; subst; clear Hsig.
+    destruct abs as [|a r]; try discriminate Hs. inv_F2.
+    destruct (N.to_nat n0) as [|k] eqn:En; try discriminate Hs.
+    destruct (S k <=? List.length r)%nat eqn:Le; try discriminate Hs. inversion Hs; subst; clear Hs.
+    apply Nat.leb_le in Le.
+    match goal with Hl : Forall2 has_ty ?l r |- _ => pose proof (stack_has_length _ _ Hl) as LL end.
+    cbv beta iota zeta delta [exec_op exec_pure arg1 imms_to_args] in H. cbn [app] in H.
+    break_all H; inversion H; subst.
+    replace (N.to_nat (n0 - 1)) with k by lia.
+    rewrite list_update_app by lia.
+    eexists; split; [reflexivity | apply list_update_F2; assumption].
+  - (* SPopn *)
+    destruct o; cbv beta iota delta [sig_of imm_nat] in Hsig; break_all Hsig; inversion Hsig; subst; clear Hsig.
+    destruct (N.to_nat n0 <=? List.length abs)%nat eqn:Le; try discriminate Hs. inversion Hs; subst; clear Hs.
+    apply Nat.leb_le in Le. pose proof (stack_has_length _ _ SH) as LL.
+    cbv beta iota zeta delta [exec_op exec_pure arg1 imms_to_args] in H.
+    break_all H; inversion H; subst.
+    rewrite skipn_app_le by lia.
+    eexists; split; [reflexivity | apply skipn_F2; assumption].
+  - (* SDupn *)
+    destruct o; cbv beta iota delta [sig_of imm_nat] in Hsig; break_all Hsig; inversion Hsig; subst; clear Hsig.
+    destruct abs as [|a r]; try discriminate Hs. inversion Hs; subst; clear Hs. inv_F2.
+    cbv beta iota zeta delta [exec_op exec_pure arg1 imms_to_args] in H. cbn [app] in H.
+    break_all H; inversion H; subst.
+    eexists (repeat _ _ ++ _ :: _). split.
+    + rewrite <- app_assoc. reflexivity.
+    + apply Forall2_app; [apply repeat_F2; assumption | constructor; assumption].
+Qed.
+
+(* ---- control opcodes are exactly the ones exec_op leaves to the machine ---- *)
+Lemma exec_op_ctl : forall cx o imms stk st, sig_of o imms = SCtl -> exec_op cx o imms stk st = ONot.
+Proof.
+  intros cx o imms stk st Hs.
+  destruct o; cbv beta iota delta [sig_of imm_nat] in Hs; break_all Hs; try discriminate Hs; reflexivity.
+Qed.
+
+Lemma exec_op_not_ctl : forall cx o imms stk st,
+  exec_op cx o imms stk st = ONot -> sig_of o imms = SCtl \/ sig_of o imms = SUnknown.
+Proof.
+  intros cx o imms stk st H.
+  destruct o; try (left; reflexivity); try (right; reflexivity).
+  all: cbv beta iota zeta delta [exec_op exec_pure oki okb okbool push_field push_afield] in H.
+  all: break_all H.
+Qed.
+
+(* ---- acceptance depends only on the shape: transport along a relation on cells ---- *)
+Lemma insert_at_some : forall A n (a : A) r, (n <= List.length r)%nat -> exists s, insert_at n a r = Some s.
+Proof.
+  induction n as [|n IH]; intros a r L; cbn.
+  - eauto.
+  - destruct r as [|h t]; cbn in L; try lia.
+    destruct (IH a t) as [s E]; try lia. rewrite E. eauto.
+Qed.
+Lemma insert_at_len : forall A n (a : A) r s, insert_at n a r = Some s -> (n <= List.length r)%nat.
+Proof.
+  induction n as [|n IH]; intros a r s H; cbn in *; try lia.
+  destruct r as [|h t]; try discriminate. destruct (insert_at n a t) eqn:E; try discriminate.
+  apply IH in E. cbn. lia.
+Qed.
+Lemma remove_at_some : forall A n (r : list A), (n < List.length r)%nat -> exists x s, remove_at n r = Some (x, s).
+Proof.
+  induction n as [|n IH]; intros r L; destruct r as [|h t]; cbn in *; try lia.
+  - eauto.
+  - destruct (IH t) as [x [s E]]; try lia. rewrite E. eauto.
+Qed.
+Lemma remove_at_len : forall A n (r : list A) x s, remove_at n r = Some (x, s) -> (n < List.length r)%nat.
+Proof.
+  induction n as [|n IH]; intros r x s H; destruct r as [|h t]; cbn in *; try discriminate; try lia.
+  destruct (remove_at n t) as [[y q]|] eqn:E; try discriminate. apply IH in E. lia.
+Qed.
+
+Lemma F2_length : forall A B (R : A -> B -> Prop) l l', Forall2 R l l' -> List.length l = List.length l'.
+Proof. intros A B R l l' F. induction F; cbn; auto. Qed.
+
+Section Transport.
+  Variables s1 s2 : bool.
+  Variable R : ty -> ty -> Prop.
+  Hypothesis Racc : forall c c' r, R c c' -> accepts s1 c r = true -> accepts s2 c' r = true.
+  Hypothesis Rcompat : forall a a' b b', R a a' -> R b b' -> ty_compat2 s1 a b = true -> ty_compat2 s2 a' b' = true.
+
+  Lemma take_ops_transport : forall req abs rest l ext,
+    take_ops s1 req abs = Some rest -> Forall2 R abs l ->
+    exists rest', take_ops s2 req (l ++ ext) = Some rest'.
+  Proof.
+    induction req as [|r req IH]; intros abs rest l ext H F; cbn in *.
+    - eauto.
+    - destruct abs as [|c abs]; try discriminate. inversion F as [|c0 c' abs0 l' Hc Hl]; subst. cbn.
+      destruct (accepts s1 c r) eqn:A; try discriminate.
+      rewrite (Racc _ _ _ Hc A). eapply IH; eauto.
+  Qed.
+
+  Lemma sig_apply_transport : forall sd abs abs' l ext,
+    sig_apply s1 sd abs = Some abs' -> Forall2 R abs l ->
+    exists r, sig_apply s2 sd (l ++ ext) = Some r.
+  Proof.
+    intros sd abs abs' l ext H F. pose proof (F2_length _ _ _ _ _ F) as LEN.
+    destruct sd; cbn [sig_apply] in *; try discriminate H.
+    - destruct (take_ops s1 pops abs) as [rest|] eqn:T; try discriminate.
+      destruct (take_ops_transport _ _ _ _ ext T F) as [rest' E]. rewrite E. eauto.
+    - destruct abs as [|a [|b r]]; try discriminate.
+      inversion F as [|? a' ? l1 Ha F1]; subst. inversion F1 as [|? b' ? l2 Hb F2]; subst. cbn [app].
+      destruct (ty_compat2 s1 a b) eqn:C; try discriminate. rewrite (Rcompat _ _ _ _ Ha Hb C). eauto.
+    - destruct abs as [|a [|b [|c r]]]; try discriminate.
+      inversion F as [|? a' ? l1 Ha F1]; subst. inversion F1 as [|? b' ? l2 Hb F2]; subst.
+      inversion F2 as [|? c' ? l3 Hc F3]; subst. cbn [app].
+      destruct (accepts s1 a TU) eqn:A1; try discriminate. destruct (accepts s1 b TU) eqn:A2; try discriminate.
+      rewrite (Racc _ _ _ Ha A1), (Racc _ _ _ Hb A2). cbn [andb]. eauto.
+    - destruct abs as [|a [|b [|c r]]]; try discriminate.
+      inversion F as [|? a' ? l1 Ha F1]; subst. inversion F1 as [|? b' ? l2 Hb F2]; subst.
+      inversion F2 as [|? c' ? l3 Hc F3]; subst. cbn [app].
+      destruct (accepts s1 a TU) eqn:A1; try discriminate.
+      rewrite (Racc _ _ _ Ha A1). eauto.
+    - destruct abs as [|a r]; try discriminate. inversion F; subst. cbn [app]. eauto.
+    - destruct abs as [|a [|b r]]; try discriminate.
+      inversion F as [|? a' ? l1 Ha F1]; subst. inversion F1; subst. cbn [app]. eauto.
+    - destruct abs as [|a [|b r]]; try discriminate.
+      inversion F as [|? a' ? l1 Ha F1]; subst. inversion F1; subst. cbn [app]. eauto.
+    - destruct (nth_error abs n) eqn:E; try discriminate.
+      assert (n < List.length (l ++ ext))%nat as L.
+      { rewrite app_length. assert (n < List.length abs)%nat by (apply nth_error_Some; congruence). lia. }
+      apply nth_error_Some in L. destruct (nth_error (l ++ ext) n); try congruence. eauto.
+    - destruct abs as [|a r]; try discriminate. inversion F as [|? a' ? l1 Ha F1]; subst. cbn [app].
+      apply insert_at_len in H. pose proof (F2_length _ _ _ _ _ F1).
+      apply insert_at_some. rewrite app_length. lia.
+    - destruct (remove_at n abs) as [[x q]|] eqn:E; try discriminate.
+      apply remove_at_len in E.
+      destruct (remove_at_some _ n (l ++ ext)) as [y [q' E']]; [rewrite app_length; lia|].
+      rewrite E'. eauto.
+    - destruct abs as [|a r]; try discriminate. inversion F as [|? a' ? l1 Ha F1]; subst. cbn [app].
+      destruct n as [|k]; try discriminate.
+      destruct (S k <=? List.length r)%nat eqn:Le; try discriminate. apply Nat.leb_le in Le.
+      pose proof (F2_length _ _ _ _ _ F1).
+      assert ((S k <=? List.length (l1 ++ ext))%nat = true) as -> by (apply Nat.leb_le; rewrite app_length; lia).
+      eauto.
+    - destruct (n <=? List.length abs)%nat eqn:Le; try discriminate. apply Nat.leb_le in Le.
+      assert ((n <=? List.length (l ++ ext))%nat = true) as -> by (apply Nat.leb_le; rewrite app_length; lia).
+      eauto.
+    - destruct abs as [|a r]; try discriminate. inversion F; subst. cbn [app]. eauto.
+  Qed.
+End Transport.
+
+(* the routine's own cells suffice (no underflow into the caller's cells) *)
+Definition enough_cells (sd : sigd) (own : list value) : bool :=
+  match sig_apply false sd (map (fun _ => TA) own) with Some _ => true | None => false end.
+
+Lemma lax_accept_enough : forall sd abs abs' cur,
+  sig_apply false sd abs = Some abs' -> stack_has cur abs -> enough_cells sd cur = true.
+Proof.
+  intros sd abs abs' cur H S. unfold enough_cells.
+  destruct (sig_apply_transport false false (fun _ t => t = TA)) with (sd := sd) (abs := abs) (abs' := abs')
+    (l := map (fun _ : value => TA) cur) (ext := @nil ty) as [r E]; auto.
+  - intros c c' r Hc _. subst. destruct r; reflexivity.
+  - intros a a' b b' Ha Hb _. subst. reflexivity.
+  - clear H. induction S; cbn; constructor; auto.
+  - rewrite app_nil_r in E. rewrite E. reflexivity.
+Qed.
+
+(* strict acceptance of the annotation gives concrete operands of the right types, whatever lies below *)
+Lemma strict_accept_operands : forall sd abs abs' cur below,
+  sig_apply true sd abs = Some abs' -> stack_has cur abs -> operands_ok sd (cur ++ below) = true.
+Proof.
+  intros sd abs abs' cur below H S. unfold operands_ok. rewrite map_app.
+  destruct (sig_apply_transport true true (fun c t => t <> TA /\ ty_le t c = true)) with (sd := sd) (abs := abs) (abs' := abs')
+    (l := map tag cur) (ext := map tag below) as [r E]; auto.
+  - intros c c' r [N L] A. destruct r; cbn in *; auto; rewrite orb_false_r in *;
+      apply ty_eqb_eq in A; subst; destruct c'; cbn in *; try discriminate; try reflexivity; congruence.
+  - intros a a' b b' [Na La] [Nb Lb] C. cbn in *. apply andb_true_iff in C. destruct C as [C1 C2].
+    apply ty_eqb_eq in C1. subst b.
+    destruct a, a', b'; cbn in *; try discriminate; try reflexivity; congruence.
+  - clear H. induction S as [|v t vs ts Hv Hs IH]; cbn; constructor; auto.
+    split; [destruct v; discriminate | exact Hv].
+  - rewrite E. reflexivity.
+Qed.
+
+Lemma lax_accept_enough_app : forall sd abs abs' cur below,
+  sig_apply false sd abs = Some abs' -> stack_has cur abs -> enough_cells sd (cur ++ below) = true.
+Proof.
+  intros sd abs abs' cur below H S. unfold enough_cells. rewrite map_app.
+  destruct (sig_apply_transport false false (fun _ t => t = TA)) with (sd := sd) (abs := abs) (abs' := abs')
+    (l := map (fun _ : value => TA) cur) (ext := map (fun _ : value => TA) below) as [r E]; auto.
+  - intros c c' r Hc _. subst. destruct r; reflexivity.
+  - intros a a' b b' Ha Hb _. subst. reflexivity.
+  - clear H. induction S; cbn; constructor; auto.
+  - rewrite E. reflexivity.
+Qed.
+
+(* ---- the signatures are necessary for success ---- *)
+Lemma arg1_imm : forall imms n, arg1 (imms_to_args imms) = Some n -> imms = [IInt n].
+Proof.
+  intros [|[k|b|s] [|j t]] n H; cbn in H; try discriminate; try (destruct j; discriminate).
+  inversion H; reflexivity.
+Qed.
+
+(* the signatures are not stricter than the machine: an opcode that succeeds had its operands.
+   (itxn_field is excepted: the machine accepts any value, the signature wants the field's type;
+    one-byte immediates are assumed to be bytes) *)
+Lemma sig_necessary : forall cx o imms stk st stk' st',
+  exec_op cx o imms stk st = OOk stk' st' -> o <> O_itxn_field ->
+  (forall n, imms = [IInt n] -> (n <= 255)%N) ->
+  operands_ok (sig_of o imms) stk = true.
+Proof.
+  intros cx o imms stk st stk' st' H N I8.
+  destruct o; try congruence; clear N.
+  all: cbv beta iota zeta delta [exec_op exec_pure oki okb okbool push_field push_afield] in H.
+  all: break_all H.
+  all: try reflexivity.
+  all: match goal with Ha : arg1 _ = Some ?n |- _ => apply arg1_imm in Ha; subst imms; pose proof (I8 _ eq_refl) as L8;
+         apply N.leb_le in L8 end.
+  all: unfold operands_ok; cbv beta iota delta [sig_of imm_nat]; rewrite L8; cbn [sig_apply map].
+  - (* dig *) erewrite map_nth_error by eassumption. reflexivity.
+  - (* cover *)
+    match goal with Hi : insert_at _ _ _ = Some _ |- _ => apply insert_at_len in Hi end.
+    destruct (insert_at_some _ (N.to_nat n) (tag v) (map tag stk)) as [s E]; [rewrite map_length; assumption|].
+    rewrite E. reflexivity.
+  - (* uncover *)
+    match goal with Hi : remove_at _ _ = Some _ |- _ => apply remove_at_len in Hi end.
+    destruct (remove_at_some _ (N.to_nat n) (map tag stk)) as [x [s E]]; [rewrite map_length; assumption|].
+    rewrite E. reflexivity.
+  - (* popn *)
+    rewrite map_length.
+    match goal with Hb : (n <=? N.of_nat _)%N = true |- _ => apply N.leb_le in Hb end.
+    assert ((N.to_nat n <=? List.length stk)%nat = true) as -> by (apply Nat.leb_le; lia). reflexivity.
+  - (* dupn *) reflexivity.
+  - (* bury *)
+    rewrite map_length.
+    match goal with Hb : (n <=? N.of_nat _)%N = true |- _ => apply N.leb_le in Hb end.
+    match goal with Hz : (n =? 0)%N = false |- _ => apply N.eqb_neq in Hz end.
+    destruct (N.to_nat n) as [|k] eqn:En; [lia|].
+    assert ((S k <=? List.length stk)%nat = true) as -> by (apply Nat.leb_le; lia). reflexivity.
+Qed.
